@@ -4,6 +4,7 @@ Generates lean/CelloGen/Thr.lean:
   * `lockErr trylockErr unlockErr joinErr createErr : List (String × String)` — the pthread error codes that
     Mutex_Lock / Mutex_Trylock / Mutex_Unlock / Thread_Join / Thread_Call test and what each does
     (exception name, or "false"/"true" for a `return`), in source order; `trylockDefault`;
+  * `teardownGcFirst : Bool` — Thread_Init_Run calls `del_raw(gc)` before `del_raw(exc)`;
   * `shape : List (String × String)` — for every function the model mirrors (how per-thread state is reached:
     Thread_Current, GC_Current, Exception_Current, the TLS accessors; Thread_Init_Run's prologue/epilogue;
     GC_New/GC_Del, Exception_New/Exception_Del, alloc_by/del_by, start_in/stop_in, the `with` macros, the Mutex
@@ -61,7 +62,7 @@ def err_table(body, fn):
 
 EXPECTED = {
  'Thread_Current': 'if (not Thread_TLS_Key_Created) { Thread_TLS_Key_Create(); Thread_TLS_Key_Created = true; atexit(Thread_TLS_Key_Delete); } var wrapper = pthread_getspecific(Thread_Key_Wrapper); if (wrapper is NULL) { if (Thread_Main is NULL) { Thread_Main = new_raw(Thread); Exception_Main = new_raw(Exception); atexit(Thread_Main_Del); } struct Thread* t = Thread_Main; t->is_main = true; t->is_running = true; t->thread = pthread_self(); return Thread_Main; } return wrapper;',
- 'Thread_Init_Run': 'struct Thread* t = self; pthread_setspecific(Thread_Key_Wrapper, t); t->is_running = true; var bottom = NULL; var gc = new_raw(GC, $R(&bottom)); var exc = new_raw(Exception); var x = call_with(t->func, t->args); del_raw(t->args); t->args = NULL; del_raw(exc); del_raw(gc); return x;',
+ 'Thread_Init_Run': 'struct Thread* t = self; pthread_setspecific(Thread_Key_Wrapper, t); t->is_running = true; var bottom = NULL; var gc = new_raw(GC, $R(&bottom)); var exc = new_raw(Exception); var x = call_with(t->func, t->args); del_raw(t->args); t->args = NULL; del_raw(gc); del_raw(exc); return x;',
  'Thread_Call': 'struct Thread* t = self; t->args = assign(alloc_raw(type_of(args)), args); if (not Thread_TLS_Key_Created) { Thread_TLS_Key_Create(); Thread_TLS_Key_Created = true; atexit(Thread_TLS_Key_Delete); } int err = pthread_create(&t->thread, NULL, Thread_Init_Run, t); if (err is EINVAL) { throw(ValueError, "Invalid Argument to Thread Creation"); } if (err is EAGAIN) { throw(OutOfMemoryError, "Not enough resources to create another Thread"); } if (err is EBUSY) { throw(BusyError, "System is too busy to create thread"); } return self;',
  'Thread_Join': 'struct Thread* t = self; if (not t->thread) { return; } int err = pthread_join(t->thread, NULL); if (err is EINVAL) { throw(ValueError, "Invalid Argument to Thread Join"); } if (err is ESRCH) { throw(ValueError, "Invalid Thread"); }',
  'Thread_Get': 'struct Thread* t = self; return deref(get(t->tls, key));',
@@ -142,6 +143,11 @@ def gen_thr(repo):
     m = re.search(r'return\s+(true|false)\s*;\s*$', shape['Mutex_Trylock'])
     if not m: raise ExtractError('Mutex_Trylock: final return not found')
     trydef = m.group(1)
+    # teardown order in Thread_Init_Run: is the collector deleted before the exception record?
+    ir = shape['Thread_Init_Run']
+    pg, pe = ir.find('del_raw(gc)'), ir.find('del_raw(exc)')
+    if pg < 0 or pe < 0: raise ExtractError('Thread_Init_Run: del_raw(gc) / del_raw(exc) not found')
+    gc_first = pg < pe
     names = list(EXPECTED.keys())
     missing = [n for n in names if n not in shape]
     if missing: raise ExtractError(f'not extracted: {missing}')
@@ -150,6 +156,8 @@ def gen_thr(repo):
     for k, t in tabs.items():
         out += f'def {k} : List (String × String) := [' + ', '.join(f'({lean_str(a)}, {lean_str(b)})' for a, b in t) + ']\n'
     out += f'def trylockDefault : String := {lean_str(trydef)}\n\n'
+    out += '/-- does the epilogue of `Thread_Init_Run` delete the collector (teardown sweep) before the exception record? -/\n'
+    out += f"def teardownGcFirst : Bool := {'true' if gc_first else 'false'}\n\n"
     out += '/-- the functions the thread model mirrors, as they are in /repo now (UNIX configuration, collector enabled) -/\n'
     out += 'def shape : List (String × String) :=\n  ' + pairs(shape) + '\n\n'
     out += '/-- the same texts when lean/Cello/Threads.lean was written -/\n'
